@@ -691,8 +691,11 @@ func (a *Account) Save() error {
 
 	// save code
 	if a.codeIsDirty {
-		if err := a.db.SetContractCode(a.data.CodeHash, a.code); err != nil {
-			return err
+		// empty code is never read from db, and db refuses to store an empty value
+		if len(a.code) > 0 {
+			if err := a.db.SetContractCode(a.data.CodeHash, a.code); err != nil {
+				return err
+			}
 		}
 		a.codeIsDirty = false
 	}
